@@ -309,6 +309,9 @@ func (i *interpreter) addFinding(kind, label string, withModel bool) {
 	sh := i.sh
 	sh.mu.Lock()
 	defer sh.mu.Unlock()
+	if os.Getenv("GOSYM_ALLTAPES") != "" && len(sh.findIdx) < 400 {
+		key = fmt.Sprintf("%s#%d", key, len(sh.findIdx))
+	}
 	if f, ok := sh.findIdx[key]; ok {
 		f.Count++
 		return
@@ -381,7 +384,7 @@ const ndPkg = "github.com/GuanceCloud/platypus/internal/verifnd."
 // intrinsic intercepts verifnd.*, stubs and symbolic-aware library functions.
 func (i *interpreter) intrinsic(fr *frame, fn *ssa.Function, args []value) (value, bool) {
 	name := fn.String()
-	if strings.HasPrefix(name, ndPkg) {
+	if strings.HasPrefix(name, ndPkg) && fn.Signature.Recv() == nil {
 		if fn.Name() == "init" {
 			return nil, true
 		}
@@ -410,6 +413,11 @@ func (i *interpreter) wantInit(path string) bool {
 
 func (i *interpreter) ndIntrinsic(name string, args []value) value {
 	ps := i.ps
+	if strings.HasPrefix(name, "VFS") {
+		if v, ok := i.vfsIntrinsic(name, args); ok {
+			return v
+		}
+	}
 	switch name {
 	case "Int64":
 		t := i.newVarTerm("int64", 64)
